@@ -44,6 +44,9 @@ type Op struct {
 	Q  int `json:"q,omitempty"` // search: query selector
 	KK int `json:"kk,omitempty"`
 	L  int `json:"l,omitempty"` // insert level
+	// Cancel: search: 0 = context.Background(); n > 0 = the caller's context ends n microseconds into the search (or, for
+	// n = 1, has already ended when the search starts), as a client that gives up does
+	Cancel int `json:"cancel,omitempty"`
 }
 
 type Case struct {
@@ -82,7 +85,11 @@ func genCase(t *rapid.T) Case {
 	})
 	rop := rapid.Custom(func(t *rapid.T) Op {
 		k := rapid.SampledFrom([]int{OGet, OLen, OSearch, OSearch, OSearch, OYield}).Draw(t, "k")
-		return Op{K: k, Id: rapid.IntRange(0, c.NIds-1).Draw(t, "id"), Q: rapid.IntRange(0, 7).Draw(t, "q"), KK: rapid.SampledFrom([]int{1, 2, 5, 20}).Draw(t, "kk")}
+		o := Op{K: k, Id: rapid.IntRange(0, c.NIds-1).Draw(t, "id"), Q: rapid.IntRange(0, 7).Draw(t, "q"), KK: rapid.SampledFrom([]int{1, 2, 5, 20}).Draw(t, "kk")}
+		if k == OSearch && rapid.IntRange(0, 3).Draw(t, "gives-up") == 0 {
+			o.Cancel = rapid.SampledFrom([]int{1, 1, 2, 5, 10, 30, 100}).Draw(t, "cancel")
+		}
+		return o
 	})
 	maxOps := pbt.Pick(40, 80)
 	for i := 0; i < nw; i++ {
@@ -293,9 +300,23 @@ func runProgram(c Case, pin bool, o *pbt.Obs) *pbt.Failure {
 						e.length = idx.Len()
 						e.ret = tick()
 					case OSearch:
+						ctx, cancel := context.Background(), func() {}
+						switch {
+						case op.Cancel == 1:
+							ctx, cancel = context.WithCancel(ctx)
+							cancel()
+						case op.Cancel > 1:
+							ctx, cancel = context.WithTimeout(ctx, time.Duration(op.Cancel)*time.Microsecond)
+						}
 						e.call = tick()
-						e.res, e.err = idx.Search(context.Background(), amath.Vector(query(op.Q)), uint(op.KK))
+						e.res, e.err = idx.Search(ctx, amath.Vector(query(op.Q)), uint(op.KK))
 						e.ret = tick()
+						cancel()
+						if op.Cancel > 0 && (e.err == context.Canceled || e.err == context.DeadlineExceeded) {
+							// a search that honours its caller's context may give up; it must leave nothing behind (the
+							// writers and the quiescence checks find out)
+							e.err, e.res = nil, nil
+						}
 					case OReload:
 						e.call = tick()
 						var buf bytes.Buffer
@@ -619,7 +640,7 @@ func check(c Case, o *pbt.Obs) *pbt.Failure {
 func TestConcurrentIndex(t *testing.T) {
 	pbt.Run(t, pbt.Prop[Case]{
 		ID: "C13", Name: "TestConcurrentIndex",
-		Rule: "rapid-generated concurrent programs on a fresh index.Hnsw (race-detector build): 1 writer (two thirds of the cases) or 2-6 writers plus 0-6 readers, each a list of 4-40 Insert/Remove/Get/Len/Search/yield ops (the single writer additionally installs snapshots: Save then Load of the bytes, as a replica's apply loop does while it serves reads) over a pool of 2-6 shared ids, every (id,version) with a unique vector, GOMAXPROCS in {2,4,16}, each program run 1-4 times; oracles: no new race report in the GORACE log while the program ran, no panic, no deadlock (20 s watchdog with index frames in the dump), per-id insert/remove/get outcomes linearizable as a set (porcupine), every search item corresponds to a version that may have been live during the search with exactly its score, and at quiescence Len == retrievable ids == stored vertices, structural invariants hold and searches satisfy C01's predicate, and after insert-only programs inside C07's exactness regime (n <= 2M+1, k = n) every stored item is returned; non-trivial = >=2 goroutines touch the same id and one of them writes it; distinct = distinct case JSON",
+		Rule: "rapid-generated concurrent programs on a fresh index.Hnsw (race-detector build): 1 writer (two thirds of the cases) or 2-6 writers plus 0-6 readers, each a list of 4-40 Insert/Remove/Get/Len/Search/yield ops, a quarter of the readers' searches with a caller context that ends 1-100 microseconds into the search or has already ended (the single writer additionally installs snapshots: Save then Load of the bytes, as a replica's apply loop does while it serves reads) over a pool of 2-6 shared ids, every (id,version) with a unique vector, GOMAXPROCS in {2,4,16}, each program run 1-4 times; oracles: no new race report in the GORACE log while the program ran, no panic, no deadlock (20 s watchdog with index frames in the dump), per-id insert/remove/get outcomes linearizable as a set (porcupine), every search item corresponds to a version that may have been live during the search with exactly its score, and at quiescence Len == retrievable ids == stored vertices, structural invariants hold and searches satisfy C01's predicate, and after insert-only programs inside C07's exactness regime (n <= 2M+1, k = n) every stored item is returned; non-trivial = >=2 goroutines touch the same id and one of them writes it; distinct = distinct case JSON",
 		Gen:     genCase,
 		Check:   check,
 		Journal: true,
